@@ -13,7 +13,8 @@ LEAVES = [('leaf', 'a', ('name', 'a')), ('leaf', '1', ('num', 1, 0)),
           ('leaf', 'b', ('name', 'b')), ('leaf', '"s"', ('str', 's')),
           ('leaf', 'True', ('const', True)), ('leaf', '2.50', ('num', 250, -2)),
           ('leaf', 'None', NONE), ('leaf', "'t'", ('str', 't')),
-          ('leaf', '"u\\nv"', ('str', 'u\nv')), ('leaf', '%n m%', ('name', '%n m%'))]
+          ('leaf', '"u\\nv"', ('str', 'u\nv')), ('leaf', '%n m%', ('name', '%n m%')),
+          ('leaf', 'index', ('name', 'index')), ('leaf', '0', ('num', 0, 0)), ('leaf', 'iffy', ('name', 'iffy'))]
 
 
 def constructors(compact=False):
